@@ -62,6 +62,9 @@ class Context(BaseContext):
         self.seen = {}
 
 
+FOCUS = int(os.environ["VERIF_FOCUS_OP"]) if os.environ.get("VERIF_FOCUS_OP") else None
+
+
 def ftok(x):
     return "f:%016x" % struct.unpack("<Q", struct.pack("<d", float(x)))[0]
 
@@ -93,7 +96,8 @@ def final_oracle(ctx):
     jobs = ctx.to_verify
     with ThreadPoolExecutor(max_workers=4) as ex:
         outs = list(ex.map(lambda j: fresh_outcome(j[0]), jobs))
-    for (actions, got), want in zip(jobs, outs):
+    for job, want in zip(jobs, outs):
+        actions, got = job[0], job[1]
         ctx.oracle_checks += 1
         ctx.extra["fresh_replays"] += 1
         if not line_equal(got, want, 1e-12):
@@ -102,6 +106,7 @@ def final_oracle(ctx):
             sides = [x for x in actions[-1] if isinstance(x, dict)]
             amb = any(sum(1 for _n, e in sd["f"] if e > 0) >= 2 or sum(1 for _n, e in sd["f"] if e < 0) >= 2 for sd in sides)
             fails.append({"kind": "history-dependent-result", "class": "K9-ambiguous-pairing" if amb else None,
+                          "focus": len(job) > 2, **({"op_index": FOCUS} if len(job) > 2 and FOCUS is not None else {}),
                           "in_history": got, "fresh_process": want,
                           "query": actions[-1], "declarations": [a for a in actions[:-1] if a[0] != "query" and a[0] != "cmp"],
                           "earlier_queries": sum(1 for a in actions[:-1] if a[0] in ("query", "cmp"))})
@@ -176,6 +181,35 @@ def generate(ctx, n_ops):
         history_queries = []
         requery = []
         size = {anchor: 1}
+        pending_fix = []
+
+        def declare(a, b, k):
+            nonlocal qn
+            mag = ("i:%d" % int(k)) if k >= 1 and k == int(k) else ftok(k)
+            expr = {"f": [[b, 1]]}
+            ub = yield from build(expr)
+            res = yield emit("U\tnamed\t%s" % a)
+            if ub is None or not res.startswith("ok\tu"):
+                return False
+            ua = int(res.split("\t")[1][1:])
+            res = yield emit("X\tqnew\ti:1\tu%d" % ua)
+            qa = qn
+            qn += 1
+            res = yield emit("X\tqnew\t%s\tu%d" % (mag, ub))
+            qb = qn
+            qn += 1
+            res = yield emit("X\tequate\tq%d\tq%d" % (qa, qb))
+            if res != "ok":
+                return False
+            ctx.actions.append(["equate", a, mag, expr])
+            # ask again what was asked before about these units (a query or a COMPARISON that
+            # failed or answered differently before the declaration must see it now)
+            touched = {a, b}
+            again = [q for q in history_queries if touched & {x[0] for x in q[3]["f"] + q[4]["f"]}]
+            rng.shuffle(again)
+            requery.extend(again[:2])
+            return True
+
         for step in range(rng.randint(15, 40)):
             r = rng.random()
             if pending_defs and (r < 0.25 or len(names) < 2):
@@ -186,43 +220,39 @@ def generate(ctx, n_ops):
                     ctx.actions.append(["define", name, dim])
                 continue
             pool = names + [anchor]
+            if pending_fix and r < 0.35:
+                # correct an equivalence that was first declared with a wrong ratio: the pair is already
+                # connected, so no edge is added - only the ratio changes - and earlier answers are stale
+                a, b = pending_fix.pop(0)
+                ok = yield from declare(a, b, size[a] / size[b])
+                if ok:
+                    declared.add((a, b))
+                continue
             if r < 0.45 and len(names) >= 1:
                 # declare an equivalence between two units that are not yet directly declared
                 a = rng.choice(names)
                 b = rng.choice([x for x in pool if x != a])
-                if (a, b) in declared or (b, a) in declared:
+                if (a, b) in declared or (b, a) in declared or (a, b) in pending_fix or (b, a) in pending_fix:
                     continue
                 # declarations are mutually CONSISTENT: every unit has a hidden size (a power of two,
                 # so every ratio is exact in binary floating point) and 1 a = (size a / size b) b.
                 # With inconsistent declarations the answer legitimately depends on the route, and the
-                # route on object identities - that is not what C08 is about.
+                # route on object identities - that is not what C08 is about.  The exception is a
+                # declaration that is made with a wrong ratio first and corrected later in the history
+                # (queries asked in between are re-asked after the correction).
                 for x in (a, b):
                     if x not in size:
                         size[x] = rng.choice([1, 2, 4, 8, 16, 1024, 0.5, 0.25, 0.125])
                 k = size[a] / size[b]
-                mag = ("i:%d" % int(k)) if k >= 1 and k == int(k) else ftok(k)
-                expr = {"f": [[b, 1]]}
-                ub = yield from build(expr)
-                res = yield emit("U\tnamed\t%s" % a)
-                if ub is None or not res.startswith("ok\tu"):
+                if rng.random() < 0.25 and len(pending_fix) < 1:
+                    ok = yield from declare(a, b, k * rng.choice([4, 0.5]))
+                    if ok:
+                        pending_fix.append((a, b))
+                        ctx.extra["redeclarations"] = ctx.extra.get("redeclarations", 0) + 1
                     continue
-                ua = int(res.split("\t")[1][1:])
-                res = yield emit("X\tqnew\ti:1\tu%d" % ua)
-                qa = qn
-                qn += 1
-                res = yield emit("X\tqnew\t%s\tu%d" % (mag, ub))
-                qb = qn
-                qn += 1
-                res = yield emit("X\tequate\tq%d\tq%d" % (qa, qb))
-                if res == "ok":
+                ok = yield from declare(a, b, k)
+                if ok:
                     declared.add((a, b))
-                    ctx.actions.append(["equate", a, mag, expr])
-                    # ask again what was asked before about these units (a query or a COMPARISON that
-                    # failed or answered differently before the declaration must see it now)
-                    touched = {a} | {x[0] for x in expr.get("f", [])}
-                    again = [q for q in history_queries if touched & {x[0] for x in q[3]["f"] + q[4]["f"]}]
-                    rng.shuffle(again)
-                    requery.extend(again[:2])
                 continue
             # a query
             if len(pool) < 2:
@@ -277,6 +307,9 @@ def generate(ctx, n_ops):
             if verify_budget > 0 and (not first or rng.random() < 0.15):
                 verify_budget -= 1
                 ctx.to_verify.append((list(ctx.actions), outcome))
+            elif FOCUS is not None and emitted - 1 == FOCUS:
+                # the cache-free model and the implementation part here: ask a fresh interpreter
+                ctx.to_verify.append((list(ctx.actions), outcome, True))
             # sometimes repeat the very same query immediately (must be identical)
         # end of history: always verify the last query
         if ctx.actions and ctx.actions[-1][0] in ("query", "cmp") and verify_budget > 0:
